@@ -384,9 +384,13 @@ impl IoLoop {
                     (HandshakeState::Secure(_, _), Error::UnexpectedSocketClose) => {
                         InvalidCredentialsSnafu.fail()
                     }
-                    // The server refused us with a Close (e.g., bad vhost) and hung up
-                    // without waiting for our CloseOk: its Close is the reason.
-                    (HandshakeState::ServerClosing(close), Error::UnexpectedSocketClose) => {
+                    // The server refused us with a Close (e.g., bad vhost) and hung up, reset
+                    // the socket or stopped reading without waiting for our CloseOk: its Close
+                    // is the reason.
+                    (HandshakeState::ServerClosing(close), Error::UnexpectedSocketClose)
+                    | (HandshakeState::ServerClosing(close), Error::IoErrorReadingSocket { .. })
+                    | (HandshakeState::ServerClosing(close), Error::IoErrorWritingSocket { .. })
+                    | (HandshakeState::ServerClosing(close), Error::MissedServerHeartbeats) => {
                         ServerClosedConnectionSnafu {
                             code: close.reply_code,
                             message: close.reply_text,
@@ -472,13 +476,31 @@ impl IoLoop {
         for frame in std::mem::take(&mut self.early_frames) {
             state.process(&mut self.inner, frame)?;
         }
-        self.run_io_loop(
+        let result = self.run_io_loop(
             stream,
             &mut state,
             Self::handle_steady_event,
             true,
             Self::is_connection_done,
-        )?;
+        );
+        // Once the server has sent Connection.Close, that is why the connection ended -
+        // whatever happens while we try to get our CloseOk out (the server may reset the
+        // socket or stop reading without waiting for it).
+        if let (
+            Err(Error::UnexpectedSocketClose)
+            | Err(Error::IoErrorReadingSocket { .. })
+            | Err(Error::IoErrorWritingSocket { .. })
+            | Err(Error::MissedServerHeartbeats),
+            ConnectionState::ServerClosing(close),
+        ) = (&result, &state)
+        {
+            return ServerClosedConnectionSnafu {
+                code: close.reply_code,
+                message: close.reply_text.clone(),
+            }
+            .fail();
+        }
+        result?;
         match state {
             ConnectionState::Steady(_) => unreachable!(),
             ConnectionState::ServerClosing(close) => ServerClosedConnectionSnafu {
